@@ -268,6 +268,25 @@ func cgroupScenario(s *Sim, params map[string]string) {
 			s.Count("fault:partition-" + kind)
 		})
 	}
+	if t.Intn("cfg", 3) == 0 {
+		// a partition of the subscribed topic is without a leader for a while
+		// (election in progress): it is still a partition of the topic
+		at := time.Duration(t.Range("fault", 0, int(endAt/time.Millisecond))) * time.Millisecond
+		dur := time.Duration(t.Range("fault", 200, 6000)) * time.Millisecond
+		s.After(at, "leader-election", func() {
+			tt := cl.Topics["ct"]
+			if tt == nil || len(tt.Parts) == 0 {
+				return
+			}
+			p := tt.Parts[t.Intn("fault", len(tt.Parts))]
+			cl.DeposeLeader(p)
+			s.Count("fault:leader-election")
+			s.After(dur, "leader-elected", func() {
+				p.Err = 0
+				cl.MoveLeader(p, cl.Brokers[t.Intn("fault", len(cl.Brokers))].ID)
+			})
+		})
+	}
 	if fmode >= 2 && t.Intn("cfg", 2) == 0 {
 		at := time.Duration(t.Range("fault", 1000, int(endAt/time.Millisecond))) * time.Millisecond
 		s.After(at, "evict", func() {
